@@ -307,12 +307,20 @@ def check(prop, tier, seed):
         if err:
             broken.append({"kind": "translator", "name": "tools/extract", "detail": err[-1500:]})
         module = cfg["module"]
-        ok, out = lake_build([module, "driver"] + cfg.get("module_extra", []))
+        mods_all = [module] + cfg.get("module_extra", [])
+        ok, out = lake_build(mods_all + ["driver"])
         lean_ok = ok
+        built = list(mods_all)
         if not ok:
-            mods = failing_modules(out)
-            broken.append({"kind": "lean-build", "name": ",".join(mods) or module,
-                           "detail": "\n".join(first_errors(out))})
+            # which property modules still build? (a failed instantiation in one module must not hide the theorems of the others)
+            built = []
+            for m in mods_all:
+                ok_m, out_m = lake_build([m])
+                if ok_m:
+                    built.append(m)
+                else:
+                    broken.append({"kind": "lean-build", "name": ",".join(failing_modules(out_m)) or m,
+                                   "detail": "\n".join(first_errors(out_m))})
             # the driver may still be buildable (model unchanged, only instantiations failed)
             ok2, out2 = lake_build(["driver"])
             if not ok2:
@@ -320,22 +328,22 @@ def check(prop, tier, seed):
         theorems = cfg.get("theorems", [])
         obligations += len(theorems)
         ax = {}
-        if lean_ok:
-            ax, _raw = audit_axioms(prop, module, theorems, cfg.get("module_extra", []))
-            for t in theorems:
-                a = ax.get(t)
-                if a is None:
-                    broken.append({"kind": "theorem", "name": t, "detail": "not found by #print axioms"})
-                elif not set(a) <= ALLOWED_AXIOMS:
-                    broken.append({"kind": "axioms", "name": t, "detail": "depends on %s" % a})
-                else:
-                    discharged += 1
-            bad = grep_forbidden(None)
-            obligations += 1
-            if bad:
-                broken.append({"kind": "forbidden-construct", "name": "grep", "detail": "\n".join(bad[:10])})
+        if built:
+            ax, _raw = audit_axioms(prop, built[0], theorems, built[1:])
+        for t in theorems:
+            a = ax.get(t)
+            if a is None:
+                broken.append({"kind": "theorem", "name": t, "detail": "not checked: not found by #print axioms" + ("" if lean_ok else " (its module no longer builds)")})
+            elif not set(a) <= ALLOWED_AXIOMS:
+                broken.append({"kind": "axioms", "name": t, "detail": "depends on %s" % a})
             else:
                 discharged += 1
+        bad = grep_forbidden(None)
+        obligations += 1
+        if bad:
+            broken.append({"kind": "forbidden-construct", "name": "grep", "detail": "\n".join(bad[:10])})
+        else:
+            discharged += 1
         if tier == "thorough" and lean_ok:
             obligations += 1
             r = sh(["lake", "env", "leanchecker", module], cwd=LEAN, timeout=3600)
